@@ -22,8 +22,64 @@ pub fn bytes_hex(b: &[u8]) -> String {
     s
 }
 
-/// data generator shared with the model: byte 0 = seed & 0xff, then a xorshift64 stream
+/// data generator shared with the model.
+/// Ordinary seeds: byte 0 = seed & 0xff, then a xorshift64 stream (`gen_data_plain`).
+/// Seeds 240..=249 with `len >= 8`: `gen_data_plain(len - 4, seed)` followed by the 4 bytes that make the
+/// CRC-32C of the whole payload equal to 0 (`crc_force`).
 pub fn gen_data(len: usize, seed: u64) -> Vec<u8> {
+    if (240..=249).contains(&seed) && len >= 8 {
+        let mut v = gen_data_plain(len - 4, seed);
+        let tail = crc_force(&v);
+        v.extend_from_slice(&tail);
+        v
+    } else {
+        gen_data_plain(len, seed)
+    }
+}
+
+/// CRC-32C (reflected polynomial 0x82F63B78) byte table: entry `i` = 8 register steps from `i`
+fn crc32c_table() -> [u32; 256] {
+    let mut t = [0u32; 256];
+    for (i, e) in t.iter_mut().enumerate() {
+        let mut s = i as u32;
+        for _ in 0..8 {
+            s = (s >> 1) ^ if s & 1 != 0 { 0x82F6_3B78 } else { 0 };
+        }
+        *e = s;
+    }
+    t
+}
+
+/// the 4 bytes `t` such that CRC-32C(`prefix ++ t`) == 0: "CRC forcing" by walking the table backwards.
+/// One byte step is `s' = (s >> 8) ^ T[(s ^ b) & 0xff]`; the high byte of `s'` is the high byte of the table
+/// entry alone, and the high bytes of the 256 entries are pairwise different, so it identifies the entry.
+pub fn crc_force(prefix: &[u8]) -> [u8; 4] {
+    let t = crc32c_table();
+    // register after the prefix (the crate's checksum is register ^ 0xFFFFFFFF)
+    let mut s: u32 = crc::Crc::<u32>::new(&crc::CRC_32_ISCSI).checksum(prefix) ^ 0xFFFF_FFFF;
+    // final register value whose final xor gives checksum 0
+    let target: u32 = 0xFFFF_FFFF;
+    // backwards: the table indices of the four steps, last step first (only the high byte is known / needed)
+    let mut idx = [0u8; 4];
+    let mut want = target;
+    for k in (0..4).rev() {
+        let hi = want >> 24;
+        let i = (0..256usize).find(|&i| t[i] >> 24 == hi).expect("high bytes of the table are a permutation");
+        idx[k] = i as u8;
+        want = (want ^ t[i]) << 8;
+    }
+    // forwards: choose each byte so that the step uses the wanted table entry
+    let mut out = [0u8; 4];
+    for k in 0..4 {
+        out[k] = idx[k] ^ (s & 0xff) as u8;
+        s = (s >> 8) ^ t[idx[k] as usize];
+    }
+    debug_assert_eq!(s, target);
+    out
+}
+
+/// the plain stream: byte 0 = seed & 0xff, then a xorshift64 stream
+pub fn gen_data_plain(len: usize, seed: u64) -> Vec<u8> {
     let mut v = Vec::with_capacity(len);
     let mut x: u64 = seed.wrapping_mul(0x9E37_79B9_7F4A_7C15).wrapping_add(len as u64) | 1;
     for i in 0..len {
@@ -74,4 +130,53 @@ pub fn err_kind(e: &anyhow::Error) -> String {
         }
     }
     "Other".to_string()
+}
+
+#[cfg(test)]
+mod tests {
+    use super::*;
+
+    fn crc32c(b: &[u8]) -> u32 {
+        crc::Crc::<u32>::new(&crc::CRC_32_ISCSI).checksum(b)
+    }
+
+    #[test]
+    fn forced_seeds_have_zero_crc() {
+        for seed in 240..=249u64 {
+            for len in [8usize, 9, 10, 11, 12, 100, 1004, 4096, 300000] {
+                let d = gen_data(len, seed);
+                assert_eq!(d.len(), len);
+                assert_eq!(d[0], seed as u8);
+                assert_eq!(&d[..len - 4], &gen_data_plain(len - 4, seed)[..]);
+                assert_eq!(crc32c(&d), 0, "len {} seed {}", len, seed);
+            }
+        }
+    }
+
+    #[test]
+    fn other_seeds_and_short_lengths_unchanged() {
+        for seed in [0u64, 1, 7, 99, 239, 250, 251, 300, 12345, u64::MAX] {
+            for len in [0usize, 1, 7, 8, 100] {
+                assert_eq!(gen_data(len, seed), gen_data_plain(len, seed));
+            }
+        }
+        for seed in 240..=249u64 {
+            for len in 0..8usize {
+                assert_eq!(gen_data(len, seed), gen_data_plain(len, seed));
+            }
+        }
+        assert_eq!(gen_data(10, 7), vec![7, 20, 246, 105, 105, 205, 84, 124, 230, 21]);
+    }
+
+    #[test]
+    fn values_shared_with_the_model() {
+        // the same values are checked in the Lean project (Pearl/Proofs/CrcForce.lean, Pearl/Model/BytesTests.lean)
+        assert_eq!(crc_force(&[]), [171, 155, 224, 155]);
+        assert_eq!(crc_force(&[1, 2, 3]), [181, 105, 208, 106]);
+        assert_eq!(gen_data(8, 240), vec![240, 82, 190, 29, 16, 189, 72, 12]);
+        let d = gen_data(1004, 241);
+        println!("gen_data(1004,241) tail = {:?} crc32c = {}", &d[1000..], crc32c(&d));
+        let d = gen_data(300000, 249);
+        println!("gen_data(300000,249) tail = {:?} crc32c = {}", &d[299996..], crc32c(&d));
+    }
 }
